@@ -21,6 +21,7 @@ import (
 	"github.com/nats-io/nats.go"
 
 	"verif/rig"
+	"verif/wire"
 )
 
 // stallOpenTransport is a ScriptTransport whose Open() blocks until the gate
@@ -211,5 +212,65 @@ func attemptNatsStalledConn(env *c13env, c c13case, body []byte) *attempt {
 	a.ConnStatus = conn.Status().String()
 	proxy.setStalled(false)
 	tr.Close()
+	return a
+}
+
+// ---------------------------------------------------------------- NATS, publish refused
+
+const (
+	c13SmallMaxPayload = 4096
+	c13BigBody         = 16 * 1024 // above the broker's max_payload, far below the transport's own 1 MiB check
+)
+
+// attemptNatsPublishRefused: the broker advertises max_payload 4 KiB, so the
+// client library refuses to publish a 16 KiB frame that passed IsOpen() and
+// the transport's 1 MiB check.  Whatever error comes back must come back in
+// time and leave no registration; the same FContext is then reused for an
+// ordinary request against the silent service, which must time out normally.
+func attemptNatsPublishRefused(env *c13env, c c13case, body []byte) *attempt {
+	fail := func(what string, err error) *attempt {
+		return &attempt{Returned: true, Harness: fmt.Sprintf("%s: %v", what, err)}
+	}
+	if env.smallErr != nil {
+		return fail("broker with max_payload 4 KiB", env.smallErr)
+	}
+	flags := &peerFlags{}
+	n := env.seq.Add(1)
+	subject := fmt.Sprintf("c13.svc.%d", n)
+	sub, err := env.smallPeer.Subscribe(subject, func(*nats.Msg) { flags.markSaw() }) // silent service
+	if err != nil {
+		return fail("peer subscribe", err)
+	}
+	defer sub.Unsubscribe()
+	env.smallPeer.Flush()
+	tr := frugal.NewFNatsTransport(env.smallClient, subject, fmt.Sprintf("_INBOX.c13.%d", n))
+	if err := tr.Open(); err != nil {
+		return fail("open", err)
+	}
+	defer tr.Close()
+	env.smallClient.Flush()
+	big := make([]byte, c13BigBody)
+	for i := range big {
+		big[i] = body[i%len(body)]
+	}
+	fctx, payload, want := newCtx(c, big)
+	if mp := env.smallClient.MaxPayload(); int64(len(payload)) <= mp || len(payload) > 1024*1024 {
+		return fail("frame size not between the two limits", fmt.Errorf("frame %d, broker max_payload %d", len(payload), mp))
+	}
+	a := invoke(callSpec{c: c, tr: tr, fctx: fctx, payload: payload, want: want, flags: flags, release: func() {}})
+	a.RequestHex = fmt.Sprintf("(%d-byte frame) %x...", len(payload), payload[:96])
+	if !a.Returned {
+		return a
+	}
+	if a.Success || a.TimedOut {
+		a.Harness = "the publish was not refused: " + a.ErrClass
+		return a
+	}
+	// reuse the FContext (documented as reusable once its request completed)
+	small := wire.BuildFrame(wire.MapToPairs(fctx.RequestHeaders()), body)
+	rc := c
+	rc.Pattern = "silent"
+	a.Reuse = invoke(callSpec{c: rc, tr: tr, fctx: fctx, payload: small, want: nil, flags: &peerFlags{}, release: func() {}})
+	a.Reuse.RequestHex = fmt.Sprintf("%x", small)
 	return a
 }
